@@ -1431,6 +1431,10 @@ def codec_boundaries(run):
             for k in counts:
                 cases.append(('str:%d-chars-of-U+%04X' % (k, ord(ch)), ch * k, ch * k))
         cases.append(('nested', {'k': [1, {'z': (2, 3)}, b'b'], 5: None}, {'k': [1, {'z': (2, 3)}, b'b'], 5: None}))
+        # array-valued map keys come back hashable at every depth
+        for label, v in (('map:tuple-key', {(1, 2): 'v'}), ('map:empty-tuple-key', {(): 1}), ('map:nested-tuple-key', {((1, 2), 3): 'v', (4, (5, (6,))): None}),
+                         ('map:tuple-key-in-nested-map', [{'k': {(1, (2, 'a')): [3]}}])):
+            cases.append((label, v, v))
         for label, v, rv in cases:
             if isinstance(v, tuple) and v and v[0] == 'ext':
                 _, t, n = v
